@@ -185,15 +185,29 @@ func (p *gcpPicker) getSubConnRef(boundKey string) (*subConnRef, error) {
 	return p.getLeastBusySubConnRef()
 }
 
-// Must be called holding the picker mutex lock.
-func (p *gcpPicker) getLeastBusySubConnRef() (*subConnRef, error) {
+// minStreamsSubConnRef returns the picker's subConnRef with the least active
+// streams and its streams count. Returns nil if the picker has no subConnRefs.
+// It takes no locks and never asks the balancer for a new subconn.
+func (p *gcpPicker) minStreamsSubConnRef() (*subConnRef, int32) {
+	if len(p.scRefs) == 0 {
+		return nil, 0
+	}
 	minScRef := p.scRefs[0]
 	minStreamsCnt := minScRef.getStreamsCnt()
 	for _, scRef := range p.scRefs {
-		if scRef.getStreamsCnt() < minStreamsCnt {
-			minStreamsCnt = scRef.getStreamsCnt()
+		if cnt := scRef.getStreamsCnt(); cnt < minStreamsCnt {
+			minStreamsCnt = cnt
 			minScRef = scRef
 		}
+	}
+	return minScRef, minStreamsCnt
+}
+
+// Must be called holding the picker mutex lock.
+func (p *gcpPicker) getLeastBusySubConnRef() (*subConnRef, error) {
+	minScRef, minStreamsCnt := p.minStreamsSubConnRef()
+	if minScRef == nil {
+		return nil, balancer.ErrNoSubConnAvailable
 	}
 
 	// If the least busy connection still has capacity, use it
